@@ -28,7 +28,7 @@ REL = {1: 0.15, 2: 0.9}          # value codes of Purity!cells[..].rel
 BASE_FIX = 0.35
 X_LL = np.array([1.3, 0.9, 0.7, 0.4, 0.3, 0.2])
 PAIRS = [('ll', 'lp_same'), ('ll', 'll'), ('llfix', 'pm'), ('hlp', 'll'), ('fp', 'lp'), ('pm', 'lp'), ('hlp', 'fp'), ('ctrl', 'll'),
-         ('lp', 'ctrl')]
+         ('lp', 'ctrl'), ('fp', 'fp')]
 
 
 def user_models():
@@ -43,7 +43,9 @@ def user_models():
     ems = [rem, chi.ConstantAndMultiplicativeGaussianErrorModel()]
     obs = [np.array(o) for o in DATA['obs']]
     times = [np.array(t) for t in DATA['times']]
-    return dict(mech=m, ems=ems, obs=obs, times=times)
+    # ONE population filter object of the user's, handed to every filter posterior built from these user models
+    fdata = np.array([[[1.9, 1.2, 1.5], [1.1, 0.6, 0.8]], [[2.1, 1.0, 1.4], [1.3, 0.7, np.nan]], [[1.7, 1.4, 1.2], [0.9, 0.5, 0.7]]])
+    return dict(mech=m, ems=ems, obs=obs, times=times, filter=chi.GaussianFilter(fdata), ftimes=[1.5, 0.5, 1.0])
 
 
 def prior(n):
@@ -71,10 +73,10 @@ def build(kind, u, shared=None):
         h = chi.HierarchicalLogPosterior(chi.HierarchicalLogLikelihood(lls, pop), prior(8))
         return h, np.array([1.2, -0.3, 1.4, 0.4, 0.2, 0.3, 0.9, 0.7, 0.5, 0.1, 0.3, 0.2])
     if kind == 'fp':
-        data = np.array([[[1.9, 1.2], [1.1, 0.6]], [[2.1, 1.0], [1.3, 0.7]], [[1.7, 1.4], [0.9, 0.5]]])
+        # unsorted times (a 3-cycle): the posterior sorts ITS copy of the user's filter
         pop = chi.ComposedPopulationModel([chi.LogNormalModel(), chi.PooledModel(n_dim=2)])
-        f = chi.PopulationFilterLogPosterior(chi.GaussianFilter(data), [1.5, 0.5], u['mech'], pop, prior(6), n_samples=2)
-        return f, np.array([0.2, 0.3, 0.9, 0.7, 0.4, 0.3, 1.2, 1.4, 0.1, -0.2, 0.3, 0.5, -0.4, 0.2, 0.6, -0.1])
+        f = chi.PopulationFilterLogPosterior(u['filter'], list(u['ftimes']), u['mech'], pop, prior(6), n_samples=2)
+        return f, np.array([0.2, 0.3, 0.9, 0.7, 0.4, 0.3, 1.2, 1.4, 0.1, -0.2, 0.3, 0.5, -0.4, 0.2, 0.6, -0.1, 0.25, -0.35, 0.15, 0.45])
     if kind == 'pm':
         return chi.PredictiveModel(u['mech'], u['ems']), X_LL
     if kind == 'ctrl':
